@@ -323,31 +323,22 @@ func (e *kvElection) verifyLeadershipAfterReconnect() {
 }
 
 func (e *kvElection) handleReconnectVerificationFailed(err error) {
-	e.mu.Lock()
-	defer e.mu.Unlock()
+	// becomeFollower takes the election mutex itself: it must not be held here
+	// (it used to be, which dead-locked the election on the first failed
+	// verification), nor across the OnDemote callback.
+	if !e.isLeader.Load() {
+		return
+	}
 
-	if e.isLeader.Load() {
-		log := e.getLogger()
-		log.Error("demoting_due_to_reconnect_verification_failure",
-			append(e.logWithContext(e.ctx),
-				zap.Error(err),
-				zap.String("error_type", classifyErrorType(err)),
-			)...,
-		)
+	log := e.getLogger()
+	log.Error("demoting_due_to_reconnect_verification_failure",
+		append(e.logWithContext(e.ctx),
+			zap.Error(err),
+			zap.String("error_type", classifyErrorType(err)),
+		)...,
+	)
 
-		e.becomeFollower()
-
-		e.mu.RLock()
-		onDemote := e.onDemote
-		e.mu.RUnlock()
-
-		if onDemote != nil {
-			log.Info("leader_demoted",
-				append(e.logWithContext(e.ctx),
-					zap.String("reason", "reconnect_verification_failed"),
-				)...,
-			)
-			onDemote()
-		}
+	if e.becomeFollower() {
+		e.notifyDemoted("reconnect_verification_failed")
 	}
 }
